@@ -12,6 +12,7 @@ package main
 
 import (
 	"context"
+	"errors"
 	"fmt"
 	"math/rand"
 	"sort"
@@ -30,6 +31,7 @@ import (
 	queryctx "github.com/lindb/lindb/query/context"
 	stagepkg "github.com/lindb/lindb/query/stage"
 	trackerpkg "github.com/lindb/lindb/query/tracker"
+	"github.com/lindb/lindb/rpc"
 	"github.com/lindb/lindb/sql/stmt"
 	"github.com/lindb/lindb/tsdb"
 )
@@ -58,17 +60,60 @@ func (b *brokerChoose) GetDatabaseCfg(_ string) (models.Database, bool)        {
 
 // ---- receivers' environment ----------------------------------------------------------------
 
-// capturePipeline stands in for the execution pipeline of a leaf: it records the statement of the first stage.
-type capturePipeline struct{}
+// capturePipeline stands in for the execution pipeline of a leaf: it records (a deep copy of) the statement of the
+// first stage and then completes the pipeline through the completion callback the task processor supplied, exactly as
+// the real pipeline does after its last stage. Completing matters: whatever the processor recycles when a request is
+// done (pooled statements, per-processor scratch objects) is then really recycled before the next request arrives.
+type capturePipeline struct {
+	complete func(err error)
+}
 
-func (capturePipeline) Execute(s stagepkg.Stage) {
+// errCaptured completes a captured data search: the leaf answers its receivers with this error instead of a result set.
+var errCaptured = errors.New("harness: statement captured, stages not executed")
+
+func (p capturePipeline) Execute(s stagepkg.Stage) {
 	q, m, db := stagepkg.VerifLeafStatement(s)
-	if f, ok := db.(*fakeDB); ok {
-		f.gotQuery, f.gotMetadata = q, m
+	f, ok := db.(*fakeDB)
+	if ok {
+		// copy now: after completion the object may be handed to another request
+		if q != nil {
+			f.gotQuery = cloneQuery(q)
+		}
+		if m != nil {
+			f.gotMetadata = cloneMetadata(m)
+		}
 		f.captured++
+	}
+	if p.complete == nil {
+		return
+	}
+	func() {
+		defer func() {
+			if r := recover(); r != nil && ok {
+				f.completePanic = fmt.Sprint(r)
+			}
+		}()
+		if m != nil {
+			p.complete(nil) // metadata suggest: sends the (empty) suggest result upstream
+		} else {
+			p.complete(errCaptured) // data search: sends the error upstream, no result set is built
+		}
+	}()
+	if ok {
+		f.completed++
 	}
 }
 func (capturePipeline) Stats() []*commonmodels.StageStats { return nil }
+
+// fakeServerFactory hands out one stream for every receiver (the leaf's answer goes nowhere).
+type fakeServerFactory struct {
+	rpc.TaskServerFactory
+	stream *fakeStream
+}
+
+func (f *fakeServerFactory) GetStream(_ string) protoCommonV1.TaskService_HandleServer {
+	return f.stream
+}
 
 type fakeStream struct {
 	protoCommonV1.TaskService_HandleServer
@@ -89,8 +134,8 @@ func (e *fakeEngine) GetDatabase(name string) (tsdb.Database, bool) {
 }
 
 func installReceiverSeams() {
-	query.VerifSetNewExecutePipelineFn(func(_ *trackerpkg.StageTracker, _ func(err error)) query.Pipeline {
-		return capturePipeline{}
+	query.VerifSetNewExecutePipelineFn(func(_ *trackerpkg.StageTracker, complete func(err error)) query.Pipeline {
+		return capturePipeline{complete: complete}
 	})
 	// intermediate data search: what exec() would do up to sending, i.e. plan and build the requests
 	query.VerifSetExecFn(func(ctx queryctx.TaskContext, _ *models.Request, mgr *query.SearchMgr) (any, error) {
@@ -146,7 +191,7 @@ func newCluster() *cluster {
 		node := &models.StatelessNode{HostIP: fmt.Sprintf("10.0.0.%d", i+1), GRPCPort: 2891}
 		eng := &fakeEngine{}
 		c.leafEngines[node.Indicator()] = eng
-		c.leafs[node.Indicator()] = query.NewLeafTaskProcessor(node, eng, nil)
+		c.leafs[node.Indicator()] = query.NewLeafTaskProcessor(node, eng, &fakeServerFactory{stream: &fakeStream{}})
 	}
 	return c
 }
@@ -176,6 +221,12 @@ func (c *cluster) leafReceive(rc received) (q *stmt.Query, m *stmt.MetricMetadat
 	}
 	if db.captured != 1 {
 		return nil, nil, fmt.Errorf("harness: leaf pipeline started %d times", db.captured)
+	}
+	if db.completePanic != "" {
+		return nil, nil, fmt.Errorf("leaf panics when its pipeline completes: %s", db.completePanic)
+	}
+	if db.completed != 1 {
+		return nil, nil, fmt.Errorf("harness: leaf pipeline completed %d times", db.completed)
 	}
 	if rc.Plan != nil && eng.askedName != rc.Plan.Database {
 		return nil, nil, fmt.Errorf("leaf looked up database %q, plan says %q", eng.askedName, rc.Plan.Database)
